@@ -133,6 +133,26 @@ pub fn run(args: &[&str]) -> String {
                         i += step.max(1);
                     }
                 }
+                // `eq(text, handle)` agrees with equality of handles
+                {
+                    let total = if kind == "str" { handles_s.len() } else { handles_p.len() };
+                    let step = if total <= 96 { 1 } else { total / 48 };
+                    let mut i = 0;
+                    while i < total {
+                        let (eq_f, eq_h) = if kind == "str" {
+                            let t = String::from_utf8(text.clone()).unwrap();
+                            (si.eq_some(&t, handles_s[i].0), handles_s[i].0 == handles_s[total - 1].0)
+                        } else {
+                            use std::os::unix::ffi::OsStrExt;
+                            let pth = std::path::Path::new(std::ffi::OsStr::from_bytes(&text));
+                            (pi.eq_some(pth, handles_p[i].0), handles_p[i].0 == handles_p[total - 1].0)
+                        };
+                        if eq_f != eq_h {
+                            tr.problems.push(format!("op {n}: eq(text, handle {i}) = {eq_f} but the handles compare {eq_h}"));
+                        }
+                        i += step.max(1);
+                    }
+                }
                 // every handle still resolves to its text
                 let total = if kind == "str" { handles_s.len() } else { handles_p.len() };
                 let step = if total <= 64 { 1 } else { total / 32 };
@@ -172,6 +192,12 @@ pub fn run(args: &[&str]) -> String {
                 let bufs = mi.verif_buffers();
                 tr.observe(&bufs);
                 outs.push(tr.locate(&bufs, h.verif_raw()));
+                // `eq(expected, handle)` must say exactly what interning `expected` and comparing handles says
+                for (i, (ph, _)) in handles.iter().enumerate() {
+                    if mi.eq_some(&pairs, *ph) != (*ph == h) {
+                        tr.problems.push(format!("op {n}: eq(pairs, handle {i}) = {} but intern(pairs) == handle {i} is {}", mi.eq_some(&pairs, *ph), *ph == h));
+                    }
+                }
                 let mut sorted = pairs_idx.clone();
                 sorted.sort();
                 // set semantics: equal as multisets of pairs <=> equal handle
